@@ -6,13 +6,14 @@ from checks import c09 as P
 
 HMOD = "Cfg.Fs Cfg.GoMod Cfg.Pipeline Harness.C10"
 # one failing stage for (the file of) one interface / one package; None = nothing fails
-STAGES = [None, None, "MissingRemoteTemplate", "SchemaRejectIface", "TemplateExecution", "InvalidGoOutput",
-          "PrepareFailure", "SchemaMissing", "TemplateSyntax", "UnknownTemplateRootPkg", None, "UnknownFormatterIface",
+STAGES = [None, None, "MissingRemoteTemplateRootPkg", "SchemaRejectIface", "TemplateExecution", "InvalidGoOutput",
+          "PrepareFailure", "SchemaMissing", "TemplateSyntaxRootPkg", "UnknownTemplateRootPkg", None, "UnknownFormatterIface",
           "SchemaRejectLater", "UnknownTemplateEntry", None, "SchemaRejectEntry"]
 CLASS_OF = lambda k: re.sub(r"(RootPkg|Root|Pkg|Iface|Entry|Later)$", "", k)
 # absent / what the run would write / that plus a trailing comment / LONGER than the new content and
 # different from its first line on (an earlier run with more mocks) / user content / a directory
 STATES = ["absent", "absent", "same", "stale", "longer", "longer", "user", "user", "dir"]
+FORMATTERS = ["goimports", "gofmt", "noop"]
 FORCE_MODES = ["unset", "root-true", "root-false", "pkg-true", "pkg-false-root-true", "pkg-true-root-false",
                "iface-same", "iface-diff"]
 
@@ -104,13 +105,22 @@ def put_state(s, rel, st, pkgname):
 
 def gen_c10(rng, i):
     focus = FOCUS[(i // 3) % len(FOCUS)] if i % 3 == 0 else None
-    stage = None if focus else STAGES[i % len(STAGES)]
+    # the other scenarios: every stage with every formatter (48 = 16 stages x 3 formatters per quick run):
+    # a stage failure that leaves an EMPTY or partial text behind is only visible when the formatter lets it
+    # through (noop always, gofmt for an empty text; goimports rejects it)
+    k = (i // 3) * 2 + (i % 3 - 1)
+    stage = None if focus else STAGES[k % len(STAGES)]
+    fmt = None if focus else FORMATTERS[(k // len(STAGES)) % len(FORMATTERS)]
+    if stage == "InvalidGoOutput" and fmt == "noop":
+        fmt = "gofmt"              # under noop invalid Go is not a failure
     for attempt in range(60):
         layout = rng.choice(["mocksdir", "pkgoverride"] if focus and focus[0] in OUTSIDE_SRC else ["default", "periface", "mocksdir", "multi", "pkgoverride"])
         pkgs = rng.sample(["a", "b", "c"], rng.randint(2, 3))
         if layout in ("default", "periface") and rng.random() < 0.3:
             pkgs += ["r", "r/s1", "r/s2"]
         base = P.gen_base(rng, layout=layout, pkgs=pkgs)
+        if fmt:
+            base["root"]["formatter"] = fmt
         if stage in P.TRAP_KINDS:
             P.use_trap(base)
         s = copy.deepcopy(base)
@@ -136,6 +146,7 @@ def gen_c10(rng, i):
                 del e["config"]["force-file-write"]
         s["tags"].append("force:focus-%s" % focus[1])
     else:
+        s["tags"].append("formatter:" + fmt)
         mode = FORCE_MODES[(i // len(STAGES) + i) % len(FORCE_MODES)]
         set_force(rng, s, mode)
         s["tags"].append("force:" + mode)
@@ -230,8 +241,13 @@ def oracle_c10(res):
         # (the new content = what the same configuration writes into a pristine tree)
         if a != b and (ref is None or a != ref):
             errs.append("output %s holds neither its old node nor the complete new content" % name)
-        if a != b and fails:
-            errs.append("output %s changed although producing it fails at a stage before writing" % name)
+        if fails:
+            # a failure at any stage: the path keeps its old node (absence included) and the run fails;
+            # an empty or partial file is neither
+            if a != b:
+                errs.append("output %s changed (now %s) although producing it fails at a stage before writing" % (name, a))
+            if res["run"]["cls"] == "Exit0":
+                errs.append("exit status 0 although producing %s fails at a stage before writing" % name)
         if a != b and b is not None and not g["force"]:
             errs.append("existing node at %s was replaced although force-file-write is false" % name)
         if res["run"]["cls"] == "Exit0":
